@@ -15,6 +15,9 @@ Unannotated stretch at 8000 (both chromosomes).  Structures (each with a coverag
  Z1 unannotated locus at 13100 on chr1: reads with intron Y = 13251-13400 and a few with X = 13255-13400 (folded into Y by the graph)
  Z2 the SAME coordinates on chr2 (processed after chr1): all reads have intron X - the model must keep X
  S2 unannotated two-exon locus on chr2 (9601-9800, 10101-...) whose reads end at two polyA sites 800 bp apart: one intron chain
+ J1 three novel loci inside gene G5: two on '+' within introns 1 and 3, one antisense ('-' canonical sites, polyT heads) spanning both:
+    novel genes are joined to annotated ones by overlap, never across strands
+ NC unannotated three-exon locus on chr2 whose introns are canonical on neither strand, reads without tails: no strand evidence at all
  Y0 full-length reads of TA (gene G11: TA = exons 1-5, TB = exons 1,3,5)
  Y1 reads over G11 exons 1,2',3,5 where 2' starts 12 bp upstream of the annotated acceptor (more than delta, less than the
     intron-graph clustering distance: next to a few Y0 reads the annotated intron is collapsed into the novel one; all other
@@ -26,7 +29,12 @@ import shutil
 
 from vlib import worlds as W
 
-STRUCTS = ["K1", "K2", "K4", "P1", "Q1", "N1", "N2", "N3", "X1", "X2", "M1", "A1", "G1", "S1", "V1", "W1", "V2", "H1", "H2", "Y0", "Y1", "I1", "I2", "F1", "F2", "Z1", "Z2", "S2"]
+STRUCTS = ["K1", "K2", "K4", "P1", "Q1", "N1", "N2", "N3", "X1", "X2", "M1", "A1", "G1", "S1", "V1", "W1", "V2", "H1", "H2", "Y0", "Y1", "I1", "I2", "F1", "F2", "Z1", "Z2", "S2", "J1", "NC"]
+NC_EXONS = [[6501, 6650], [6801, 6950], [7101, 7300]]
+# three unannotated loci inside gene G5 (+): two on '+' (in introns 1 and 3), one antisense spanning both (canonical for '-')
+J_PLUS_A = [[9321, 9420], [9521, 9620], [9681, 9780]]
+J_PLUS_B = [[10821, 10920], [11021, 11120], [11281, 11380]]
+J_MINUS = [[9431, 9510], [10051, 10150], [11131, 11270]]
 Z_EXONS = [[13101, 13250], [13401, 13550], [13651, 13780]]
 # gene G11 (chr2, +): TA = 5 exons, TB = exons 1,3,5
 G11_EXONS = [[3201, 3350], [3501, 3650], [3801, 3950], [4101, 4250], [4401, 4550]]
@@ -36,7 +44,7 @@ G5_EXONS = [[9001, 9300], [9801, 10000], [10601, 10800], [11401, 11700], [12501,
 LEVELS = (1, 3, 12)
 # structures by the locus they live in (structures of different loci do not interact except through id numbering)
 LOCUS = {"G1": ["K1", "K2", "P1", "Q1", "N1", "N2", "N3", "X1", "X2", "A1", "S1", "V1", "I1", "I2"], "G2": ["K4"], "U1": ["M1"], "U2": ["G1"],
-         "G5": ["W1", "V2"], "G6": ["H1", "H2", "F1", "F2"], "G11": ["Y0", "Y1"], "ZA": ["Z1"], "ZB": ["Z2"], "U3": ["S2"]}
+         "G5": ["W1", "V2", "J1"], "G6": ["H1", "H2", "F1", "F2"], "G11": ["Y0", "Y1"], "ZA": ["Z1"], "ZB": ["Z2"], "U3": ["S2"], "U4": ["NC"]}
 LOCUS_OF = {st: loc for loc, sts in LOCUS.items() for st in sts}
 
 
@@ -120,6 +128,12 @@ def structure_reads(struct, level, tag):
             reads.append(W.read_of(nm, "chr2", b))
         elif struct == "S2":
             reads.append(W.read_of(nm, "chr2", [[9601, 9800], [10101, 10400 if k % 2 else 11200]]))
+        elif struct == "J1":
+            reads.append(W.read_of(nm + "a", "chr1", J_PLUS_A))
+            reads.append(W.read_of(nm + "b", "chr1", J_PLUS_B))
+            reads.append(W.read_of(nm + "c", "chr1", J_MINUS, strand="-"))
+        elif struct == "NC":
+            reads.append(W.read_of(nm, "chr2", NC_EXONS, polya=False))
         elif struct == "Y0":
             reads.append(W.read_of(nm, "chr2", G11_EXONS))
         elif struct == "Y1":
@@ -170,6 +184,10 @@ def make_world(scenario, annotated=True):
     W.add_sites_for_blocks(w, "chr1", [G6_EXONS[i] for i in (0, 2, 3)], "+")
     W.add_sites_for_blocks(w, "chr1", [G6_EXONS[i] for i in (4, 6, 7)], "+")
     W.add_sites_for_blocks(w, "chr1", Z_EXONS, "+")
+    W.add_sites_for_blocks(w, "chr1", J_PLUS_A, "+")
+    W.add_sites_for_blocks(w, "chr1", J_PLUS_B, "+")
+    W.add_sites_for_blocks(w, "chr1", J_MINUS, "-")
+    W.add_sites_for_blocks(w, "chr2", NC_EXONS, "nc")
     W.add_sites_for_blocks(w, "chr2", [[9601, 9800], [10101, 10400]], "+")
     W.add_sites_for_blocks(w, "chr2", [[Z_EXONS[0][0], Z_EXONS[0][1] + 4], Z_EXONS[1], Z_EXONS[2]], "+")
     W.dedup_sites(w)
